@@ -82,6 +82,13 @@ class MyBase(BaseException):
     pass
 
 
+def _dyn(base, n=[0]):
+    """a NEW class on every call, always named DynErr: distinct classes sharing one __name__"""
+    n[0] += 1
+    cls = type('DynErr', (base,), {'serial': n[0]})
+    return cls('dyn', n[0])
+
+
 CATALOGUE = [
     ('ValueError', lambda: ValueError('bad value', 3)), ('KeyError', lambda: KeyError('k')), ('IndexError', lambda: IndexError(5)),
     ('AttributeError', lambda: AttributeError('attr')), ('TypeError', lambda: TypeError('type')),
@@ -91,6 +98,7 @@ CATALOGUE = [
     ('UserErr', lambda: UserErr('user', code=9)), ('KwOnlyErr', lambda: KwOnlyErr(code=1)), ('ArityErr', lambda: ArityErr('a', 'b')),
     ('MyGlomErr', lambda: MyGlomErr('mine', 2)), ('MyGlomErrInit', lambda: MyGlomErrInit(code=4)),
     ('MyGlomErrArity', lambda: MyGlomErrArity('a', 'b')),
+    ('DynErr(Exception)', lambda: _dyn(Exception)), ('DynErr(ValueError)', lambda: _dyn(ValueError)), ('DynErr(KeyError)', lambda: _dyn(KeyError)),
     ('KeyboardInterrupt', lambda: KeyboardInterrupt()), ('SystemExit', lambda: SystemExit(3)), ('MyBase', lambda: MyBase('base')),
 ]
 
